@@ -44,10 +44,16 @@ def check(ctx, text, opts, source, renderers=CONTRIB):
         ctx.ev()
         c = dict(case, renderer=rname)
         try:
-            out = mt.render(text, rname, **opts)
+            out, again = render_twice(text, rname, opts)
         except Exception as e:  # noqa
             ctx.violation('contrib-raises-where-html-does-not', '%s %s' % (rname, mt.exc_site(e)), c, traceback=mt.tb_text(e))
             continue
+        if again != out:
+            # the same Document rendered a second time by the same renderer: "on every document" includes one that was rendered before
+            k = next((i for i, (x, y) in enumerate(zip(again, out)) if x != y), min(len(out), len(again)))
+            ctx.violation('second-render-differs', '%s near %s' % (rname, near(out, k)), c, expected=out, observed=again, first_difference_at=k)
+            continue
+        ctx.count('rendered-twice', rname)
         if rname == 'MathJax':
             src = mt.renderer_class('MathJax').mathjax_src
             if not out.endswith(src):
@@ -61,6 +67,16 @@ def check(ctx, text, opts, source, renderers=CONTRIB):
             ctx.count('equal', rname)
             if len(base) > 20:
                 ctx.seen('nontrivial', [text, opts, rname])
+
+
+def render_twice(text, rname, opts):
+    cls = mt.renderer_class(rname)
+    try:
+        with cls(**opts) as r:
+            doc = mt.Document(text)
+            return r.render(doc), r.render(doc)
+    finally:
+        mt.reset()
 
 
 def near(base, k):
